@@ -64,8 +64,118 @@ def _has_strings(fmls):
     return "String" in txt or "str." in txt
 
 
+def _is_num(t):
+    return z3.is_rational_value(t) or z3.is_int_value(t) or z3.is_algebraic_value(t)
+
+
+def product_facts(a, b, v):
+    """facts about v = a * b used by abstract_products; each is a theorem of real / integer arithmetic (proved on every run of C08
+    as the raw lemma `product_facts_are_valid`, without the abstraction)"""
+    out = []
+    for x, y in ((a, b), (b, a)):
+        out.extend([z3.Implies(z3.And(x >= 0, y >= 0), v >= 0), z3.Implies(z3.And(x <= 0, y <= 0), v >= 0), z3.Implies(z3.And(x >= 0, y <= 0), v <= 0),
+                    z3.Implies(x == 1, v == y), z3.Implies(z3.And(x >= 0, x <= 1, y >= 0), v <= y), z3.Implies(z3.And(x >= 0, x < 1, y > 0), v < y),
+                    z3.Implies(z3.And(x >= 1, y >= 0), v >= y), z3.Implies(z3.And(x > 0, y > 0), v > 0)])
+    out.append((v == 0) == z3.Or(a == 0, b == 0))
+    return out
+
+
+def shared_factor_facts(x, y, y2, v, w):
+    """facts relating v = x * y and w = x * y2"""
+    return [z3.Implies(z3.And(x >= 0, y <= y2), v <= w), z3.Implies(z3.And(x >= 0, y >= y2), v >= w),
+            z3.Implies(z3.And(x <= 0, y <= y2), v >= w), z3.Implies(z3.And(x <= 0, y >= y2), v <= w), z3.Implies(y == y2, v == w),
+            z3.Implies(z3.And(x > 0, y < y2), v < w)]
+
+
+def abstract_products(fmls):
+    """Sound weakening for nonlinear arithmetic: every product x * y of two non-constant factors (outside quantifiers) is replaced
+    by a fresh variable v constrained only by VALID facts about products (signs, zero, unit factors, 0 <= x <= 1 scaling,
+    monotonicity in a shared factor). If the result - linear arithmetic - is unsatisfiable, so is the original: the original's
+    products satisfy every added fact. Returns (new formulas, number of products) - sat / unknown answers on it mean nothing."""
+    memo, prods, facts = {}, {}, []
+    ctr = [0]
+
+    def prod(a, b):
+        if a.get_id() > b.get_id():
+            a, b = b, a
+        key = (a.get_id(), b.get_id())
+        if key in prods:
+            return prods[key][2]
+        ctr[0] += 1
+        v = z3.Const("prod!%d" % ctr[0], a.sort())
+        prods[key] = (a, b, v)
+        facts.extend(product_facts(a, b, v))
+        return v
+
+    def walk(t):
+        k = t.get_id()
+        if k in memo:
+            return memo[k][1]
+        if z3.is_quantifier(t) or not z3.is_app(t) or t.num_args() == 0:
+            r = t
+        else:
+            kids = [walk(c) for c in t.children()]
+            if z3.is_mul(t):
+                nums = [c for c in kids if _is_num(c)]
+                rest = [c for c in kids if not _is_num(c)]
+                if len(rest) >= 2:
+                    v = rest[0]
+                    for f in rest[1:]:
+                        if v.sort() != f.sort():
+                            v, f = (z3.ToReal(v) if z3.is_int(v) else v), (z3.ToReal(f) if z3.is_int(f) else f)
+                        v = prod(v, f)
+                    r = v
+                    for c in nums:
+                        r = c * r
+                else:
+                    r = t.decl()(*kids)
+            else:
+                r = t.decl()(*kids)
+        memo[k] = (t, r)
+        return r
+
+    out = [walk(f) for f in fmls]
+    # monotonicity / congruence between products that share a factor
+    items = list(prods.values())
+    for i in range(len(items)):
+        for j in range(i + 1, len(items)):
+            (a, b, v), (c, d, w) = items[i], items[j]
+            for (x, y), (x2, y2) in (((a, b), (c, d)), ((a, b), (d, c)), ((b, a), (c, d)), ((b, a), (d, c))):
+                if x.get_id() == x2.get_id() and y.sort() == y2.sort():
+                    facts.extend(shared_factor_facts(x, y, y2, v, w))
+    return out + facts, len(prods)
+
+
 def check_unsat(fmls, timeout_ms=30000, cvc5_fallback=True, crosscheck=False, want_model=True, tactic=None):
-    """Is the conjunction of fmls unsatisfiable?  -> Result(status in unsat|sat|unknown)"""
+    """Is the conjunction of fmls unsatisfiable?  -> Result(status in unsat|sat|unknown).
+    Formulas with products of non-constant factors are first tried with the products abstracted (sound weakening, linear,
+    reproducible); in the thorough tier the plain query and the cvc5 cross-check still run, and the abstraction's verdict stands
+    when they run out of time."""
+    fmls = list(fmls)
+    res0 = None
+    if tactic is None and not _has_strings(fmls):
+        try:
+            lin, nprod = abstract_products(fmls)
+        except z3.Z3Exception:
+            lin, nprod = None, 0
+        if nprod:
+            s0 = z3.Solver()
+            s0.set("timeout", min(timeout_ms, 5000))
+            s0.add(lin)
+            t0 = time.time()
+            if s0.check() == z3.unsat:
+                res0 = Result("unsat", "z3[products abstracted]", (time.time() - t0) * 1000)
+                if not crosscheck:
+                    return res0
+    r = _check_unsat(fmls, timeout_ms, cvc5_fallback, crosscheck, want_model, tactic)
+    if res0 is not None and r.status == "unknown":
+        res0.ms += r.ms
+        res0.note = "plain query: " + (r.note or "unknown")
+        return res0
+    return r
+
+
+def _check_unsat(fmls, timeout_ms=30000, cvc5_fallback=True, crosscheck=False, want_model=True, tactic=None):
     s = z3.Solver() if tactic is None else z3.Tactic(tactic).solver()
     fmls = list(fmls)
     strings = _has_strings(fmls)
@@ -100,14 +210,23 @@ def check_unsat(fmls, timeout_ms=30000, cvc5_fallback=True, crosscheck=False, wa
             if s.check() == z3.sat:
                 return Result("sat", "cvc5+z3", ms + cms, s.model() if want_model else None)
             return Result("sat", "cvc5", ms + cms, None, note="cvc5 found a model (not extracted)")
-        if first < timeout_ms:  # both gave up quickly: z3 once more with the full budget
-            s.set("timeout", timeout_ms)
-            t2 = time.time()
-            r2 = s.check()
-            ms2 = (time.time() - t2) * 1000
-            if r2 == z3.unsat:
-                return Result("unsat", "z3", ms + cms + ms2)
-            if r2 == z3.sat:
-                return Result("sat", "z3", ms + cms + ms2, s.model() if want_model else None)
+        if first < timeout_ms:
+            # both gave up: z3 again, the remaining budget split over fresh solvers with different random seeds (its nonlinear
+            # and quantifier engines are sensitive to the seed: an obligation that usually takes milliseconds occasionally
+            # diverges; a different seed brings it back)
+            ms2 = 0.0
+            for seed in (1, 2, 3):
+                s2 = z3.Solver()
+                s2.set("timeout", max(1000, timeout_ms // 3))
+                s2.set("random_seed", seed)
+                s2.add(fmls)
+                t2 = time.time()
+                r2 = s2.check()
+                ms2 += (time.time() - t2) * 1000
+                if r2 == z3.unsat:
+                    return Result("unsat", "z3", ms + cms + ms2)
+                if r2 == z3.sat:
+                    return Result("sat", "z3", ms + cms + ms2, s2.model() if want_model else None)
+            return Result("unknown", "z3+cvc5", ms + cms + ms2, note=str(s.reason_unknown()))
         return Result("unknown", "z3+cvc5", ms + cms, note=str(s.reason_unknown()))
     return Result("unknown", "z3", ms, note=str(s.reason_unknown()))
